@@ -217,6 +217,29 @@ Theorem C02_tx_gap_preserved : forall w sender target m funds w' tr h h',
   delegated (w_env w') A_hub - booked h' = delegated (w_env w) A_hub - booked h.
 Proof. exact tx_gap_preserved. Qed.
 
+(** equality at synchronisation points.  [NoSurplus w] = DelWf (w_env w), the hub's coin is usei and
+    delegated <= booked (nothing is delegated that is not booked; slashing only widens the
+    difference).  It is kept by every transaction and by every operation of a history except a
+    re-instantiation of the hub over existing delegations; together with theorem 10 it gives:
+    after a successful pricing transaction the booked stake EQUALS the delegated stake *)
+Theorem C02_tx_nosurplus_preserved : forall w sender target m funds w' tr,
+  NoSurplus w -> run tx_fuel w [(sender, MWasm target m funds)] [] = Some (w', tr) -> NoSurplus w'.
+Proof. exact tx_nosurplus_preserved. Qed.
+
+Theorem C02_step_nosurplus_preserved : forall w o,
+  NoSurplus w ->
+  (forall a b c d e f g i, o <> OInstHub a b c d e f g i) ->
+  NoSurplus (fst (step w o)).
+Proof. exact step_nosurplus_preserved. Qed.
+
+Theorem C02_tx_books_exact_after_pricing : forall w sender target m funds w' tr h',
+  EntWf w -> NoSurplus w ->
+  run tx_fuel w [(sender, MWasm target m funds)] [] = Some (w', tr) ->
+  existsb is_pricing_msg tr = true ->
+  w_hub w' = Some h' ->
+  booked h' = delegated (w_env w') A_hub.
+Proof. exact tx_books_exact_after_pricing. Qed.
+
 (** ** (d) the hub's liquid balance *)
 
 (** 13. the staking coins leaving the hub in one handler: the payment for the three bond handlers,
@@ -296,6 +319,9 @@ Print Assumptions C02_token_send_tx_books.
 Print Assumptions C02_tx_books_preserved.
 Print Assumptions C02_step_books_preserved.
 Print Assumptions C02_tx_gap_preserved.
+Print Assumptions C02_tx_nosurplus_preserved.
+Print Assumptions C02_step_nosurplus_preserved.
+Print Assumptions C02_tx_books_exact_after_pricing.
 Print Assumptions C02_hub_execute_dsum.
 Print Assumptions C02_hub_execute_emits.
 Print Assumptions C02_tx_liquid_ge.
